@@ -24,6 +24,10 @@ def make_engine(prop: str, steer: List[str]):
         from .engine_c13 import EngineC13
 
         return EngineC13("C13", steer)
+    if prop == "C18":
+        from .engine_c18 import EngineC18
+
+        return EngineC18("C18", steer)
     raise KeyError(prop)
 
 
@@ -43,6 +47,7 @@ NOT_APPLICABLE = {
 }
 
 ENGINES = [
+    {"name": "solver-world/presentation", "path": "sim/engine_c18.py", "serves_properties": ["C18"], "kind_free_text": "paired runs of every decomposition algorithm in the simulated world (seed, verbosity, clock, interpreter, call history, representation, scale, relabelling)"},
     {"name": "solver-world/gcp", "path": "sim/engine_c13.py", "serves_properties": ["C13"], "kind_free_text": "GCP samplers under seed search; histories of solves (incl. aborted ones) on one optimizer object with recording/faulting sampler proxy, simulated clock, differential vs. fresh optimizer"},
     {"name": "tensor-history", "path": "sim/engine_a.py", "serves_properties": ["C04", "C19"], "kind_free_text": "seeded read/write histories on a dense+sparse pair vs. a reference model; malformed requests as faults"},
     {"name": "solver-world/cp_apr", "path": "sim/engine_c11.py", "serves_properties": ["C11"], "kind_free_text": "CP-APR under a simulated clock; deadline fired at every iteration boundary"},
@@ -133,5 +138,28 @@ CHECKS = {
             "simulated": ["time module as seen by pyttb.gcp.optimizers and pyttb.gcp_opt (SimClock)", "GCPSampler proxy (recording / faulting)", "loss and gradient callables wrapped (faulting)", "logging/stdout sinks", "np.random seeded per solve"],
         },
         "assumptions": ["loss callables of pyttb.gcp.handles are trusted for recomputing estimates"],
+    },
+    "C18": {
+        "manifest": {
+            "engine": "solver-world/presentation",
+            "design_ref": "DESIGN.md section 3, engine C, C18",
+            "level_text": "Seeded search over problems x relations: for CP-ALS, CP-APR (mu/pdnr/pqnr), HOSVD, Tucker-ALS and GCP/L-BFGS-B a base run and a variant of the same problem are executed inside the simulated world (scripted clock, seeded global random stream, ARPACK start vector behind a seam, captured stdout/logging) and the denoted tensors, iteration counts, fits and the random-stream state afterwards are compared. R1-R4 (same seed incl. fresh interpreter under another PYTHONHASHSEED and after unrelated eigen-solves, verbosity, clock, returned guess) are the simulation proper; R5-R7 (dense/sparse, positive scaling, consistent mode relabelling) are metamorphic relations on the same harness.",
+            "level_note": "Tolerances: 1e-12 (R1,R3,R4), 1e-9 (R2), 1e-8 (R5-R7) relative on the dense tensor, fits to 1e-6. Iteration counts pinned (stoptol=0, small maxiters), generic continuous data, admissible ranks; pairs whose eigen-gap at a truncation is < 1e-6 are skipped and counted. ARPACK seam always on.",
+            "technique": "deterministic simulation: paired runs under controlled seed/clock/output/interpreter seams; metamorphic relations for representation, scale and relabelling",
+        },
+        "level": "exploration",
+        "quick": {"runs": 3000, "wall": 240},
+        "thorough": {"runs": 80000, "wall": 1500},
+        "chunk": 10,
+        "rule": (
+            "one case = one algorithm + one sampled problem + 2-5 relation steps (each a base/variant pair); "
+            "non-trivial = at least 2 pairs compared; distinct = distinct digest of (problem, steps, observations)."
+        ),
+        "state_measure": "hash of (algorithm, relation, order, kind of initial guess, dimorder given?)",
+        "components": {
+            "real": REAL_ALL,
+            "simulated": ["time module of pyttb.cp_apr / pyttb.gcp.optimizers / pyttb.gcp_opt (SimClock)", "np.random seeded per run", "ARPACK start vector (eigsh/eigs v0)", "stdout / logging sinks", "interpreter hash seed (fresh-process variant)"],
+        },
+        "assumptions": ["comparison on the denoted dense tensor, not on factor matrices (sign/permutation ambiguity)", "pairs with a near-degenerate spectrum at a truncation are skipped"],
     },
 }
